@@ -856,14 +856,40 @@ func c01Ahead(r *fw.Run, p *fw.Program) {
 			ru.Check(okPos, key+":position", p.Rel(ret.Pos()), "returned position is where the wrapped reader now is", "returned position "+pos.String()+" is not the position the wrapped reader was moved to")
 		}
 		// whence arms of absOff
-		for _, st := range storesTo(fn, "r.offset") {
-			arms, _ := phiArmsByConst(env, st.Val, "whence")
+		foundCur := false
+		for _, st := range c01EffStores(fn, "offset") {
+			if st.val == nil {
+				continue
+			}
+			arms, _ := phiArmsByConst(env, st.val, "whence")
 			if a, ok := arms[0]; ok {
-				ru.Check(a.Equal(fw.PAtom("offset")), "Seek:SeekStart", p.Rel(st.Pos()), "absolute = offset", "SeekStart resolves to "+a.String())
+				ru.Check(a.Equal(fw.PAtom("offset")), "Seek:SeekStart", p.Rel(st.at.Pos()), "absolute = offset", "SeekStart resolves to "+a.String())
 			}
 			if a, ok := arms[1]; ok {
-				ru.Check(a.Equal(fw.ParsePoly("offset + r.offset")), "Seek:SeekCurrent", p.Rel(st.Pos()), "absolute = r.offset + offset", "SeekCurrent resolves to "+a.String()+", expected r.offset + offset")
+				foundCur = true
+				ru.Check(a.Equal(fw.ParsePoly("offset + r.offset")), "Seek:SeekCurrent", p.Rel(st.at.Pos()), "absolute = r.offset + offset", "SeekCurrent resolves to "+a.String()+", expected r.offset + offset")
 			}
+		}
+		if !foundCur {
+			ru.Fail("Seek:SeekCurrent", p.Rel(fn.Pos()), "no path resolves io.SeekCurrent as r.offset + offset (the logical position is only known to this reader)")
+		}
+		// the wrapped reader does not sit at the logical offset (it is after the read-ahead block, or wherever the
+		// last miss left it): a seek relative to ITS current position must never be delegated to it
+		for i, sk := range seeks {
+			a := callArgs(sk)
+			okW := false
+			if c, isC := a[1].(*ssa.Const); isC && c.Value != nil {
+				okW = c.Int64() != 1
+			} else if env.Of(a[1]).Equal(fw.PAtom("whence")) {
+				if k, has := constFact(env, sk.Block(), "whence"); has && k != 1 {
+					okW = true
+				}
+				if env.Proves(sk.Block(), fw.Cmp{P: fw.PAtom("whence").Sub(fw.PConst(1)), Rel: fw.NE}) {
+					okW = true
+				}
+			}
+			ru.Check(okW, fmt.Sprintf("Seek:delegate%d:not-current", i+1), p.Rel(sk.Pos()), "wrapped Seek is never relative to its own position",
+				"the wrapped reader's Seek can be called with io.SeekCurrent: its position is after the read-ahead block (cacheOffset+cacheUsed), not the logical offset, so the seek lands read-ahead bytes too far")
 		}
 	}
 	if fn := c01Fn(ru, p, "(*internal/aheadreadseeker.Reader).Read"); fn != nil {
